@@ -138,8 +138,10 @@ func (node *UniqueIDNode) Equals(node2 Node) bool {
 		u1, err1 := node.UUID()
 		u2, err2 := n2.UUID()
 
+		// An identifier that cannot be parsed can only be compared as it is
+		// written. Otherwise a node would not be equal to a copy of itself.
 		if err1 != nil || err2 != nil {
-			return false
+			return err1 != nil && err2 != nil && node.Value() == n2.Value()
 		}
 
 		return u1.Equals(u2)
